@@ -218,8 +218,10 @@ class NamespaceClass(Namespace[symtable.Class]):
     # keys   --> nonlocal names of THIS namespace
     # values --> where the nonlocal name was born
 
-    if sys.version_info < (3, 12):
-        globals_used_in_comp: set[str]  # global names used in comprehensions
+    # global names used in lambdas and comprehensions
+    # (since python 3.12 list/set/dict comprehensions are inlined,
+    # only lambdas and generator expressions have their own symbol tables)
+    globals_used_in_comp: set[str]
 
     def __init__(self, symt: symtable.Class, stack: list[Namespace]):
         # don't push/pop the stack in this function
@@ -229,8 +231,7 @@ class NamespaceClass(Namespace[symtable.Class]):
         self.outer_nsp = stack[-1]
         self.outer_nsp.inner_nsp.append(self)
         self.outer_nonlocal_map = {}
-        if sys.version_info < (3, 12):
-            self.globals_used_in_comp = set()
+        self.globals_used_in_comp = set()
 
         for symbol in self.symt.get_symbols():
             if not (symbol.is_nonlocal() or symbol.is_free()):
@@ -299,7 +300,7 @@ class NamespaceClass(Namespace[symtable.Class]):
             if name in comp.target_names:
                 return Name(id=name, ctx=Load())
 
-        if sys.version_info < (3, 12) and name in self.globals_used_in_comp:
+        if name in self.globals_used_in_comp:
             return Name(id=name, ctx=Load())
 
         symbol = self.symt.lookup(name)
@@ -331,14 +332,12 @@ class NamespaceClass(Namespace[symtable.Class]):
             )
 
 
-if sys.version_info < (3, 12):
-
-    def _comp_check(symt: symtable.Function):
-        if symt.get_name() not in ["listcomp", "genexpr", "setcomp", "dictcomp"]:
-            return False
-        if ".0" not in symt.get_parameters():
-            return False
-        return True
+def _comp_check(symt: symtable.Function):
+    if symt.get_name() not in ["listcomp", "genexpr", "setcomp", "dictcomp"]:
+        return False
+    if ".0" not in symt.get_parameters():
+        return False
+    return True
 
 
 def update_globals_from_lambda_or_comp(symt: symtable.Function, stack: list[Namespace]):
@@ -396,10 +395,9 @@ def generate_nsp(symt: symtable.SymbolTable, configs: Configs):
                 if child_symt.get_name() == "lambda":
                     update_globals_from_lambda_or_comp(child_symt, generate_stack)
                     continue
-                if sys.version_info < (3, 12):
-                    if _comp_check(child_symt):
-                        update_globals_from_lambda_or_comp(child_symt, generate_stack)
-                        continue
+                if _comp_check(child_symt):
+                    update_globals_from_lambda_or_comp(child_symt, generate_stack)
+                    continue
 
                 generate_stack.append(NamespaceFunction(child_symt, generate_stack))
             elif _symtable_is_class(child_symt):
